@@ -470,12 +470,21 @@ type VS struct {
 	A int    `yaml:"a" validate:"gte=1,lte=9"`
 	B string `yaml:"b" validate:"required,min=2"`
 	C []int  `yaml:"c" validate:"max=3"`
+	N VN     `yaml:"n,omitempty" validate:"required"` // a nested (non-pointer) section that must be configured
+}
+
+type VN struct {
+	X int    `yaml:"x,omitempty"`
+	Y string `yaml:"y,omitempty"`
 }
 
 func TestValidateStruct(t *testing.T) {
 	kit.Rec.Rule(rule)
 	rapid.Check(t, func(t *rapid.T) {
 		v := VS{A: rapid.IntRange(-1, 11).Draw(t, "a"), B: rapid.SampledFrom([]string{"", "x", "xy", "hello"}).Draw(t, "b"), C: rapid.SliceOfN(rapid.IntRange(0, 5), 0, 5).Draw(t, "c")}
+		if rapid.IntRange(0, 3).Draw(t, "nested") != 0 {
+			v.N = VN{X: rapid.IntRange(0, 2).Draw(t, "nx"), Y: rapid.SampledFrom([]string{"", "y"}).Draw(t, "ny")}
+		}
 		doc, _ := yaml.Marshal(map[string]any{"c18": map[string]any{"vs": v, "pad": 1}})
 		withValidate := rapid.IntRange(0, 4).Draw(t, "withvalidate") > 0
 		ptr := rapid.Bool().Draw(t, "ptr")
@@ -493,7 +502,7 @@ func TestValidateStruct(t *testing.T) {
 		if out.Panic != nil {
 			t.Fatalf("C18: panic %v\n%s", out.Panic, desc)
 		}
-		ok := v.A >= 1 && v.A <= 9 && utf8.RuneCountInString(v.B) >= 2 && len(v.C) <= 3
+		ok := v.A >= 1 && v.A <= 9 && utf8.RuneCountInString(v.B) >= 2 && len(v.C) <= 3 && v.N != (VN{})
 		if libErr := vld.Struct(v); (libErr == nil) != ok {
 			t.Fatalf("HARNESS: reference verdict %v disagrees with the validator library (%v) for %+v", ok, libErr, v)
 		}
@@ -502,7 +511,12 @@ func TestValidateStruct(t *testing.T) {
 			t.Fatalf("C18: struct %+v (validate present: %v): reference says violated=%v, but start-up %s\n%s", v, withValidate, !ok, map[bool]string{true: "failed: " + out.String(), false: "succeeded"}[out.Err != nil], desc)
 		}
 		boundary := v.A == 0 || v.A == 1 || v.A == 9 || v.A == 10 || len(v.B) == 1 || len(v.B) == 2 || len(v.C) == 3 || len(v.C) == 4
-		kit.Rec.Case(desc, boundary && withValidate, "struct")
+		lab := []string{"struct"}
+		if v.N == (VN{}) && v.A >= 1 && v.A <= 9 && utf8.RuneCountInString(v.B) >= 2 && len(v.C) <= 3 {
+			lab = append(lab, "only-the-nested-section-is-missing")
+			boundary = true
+		}
+		kit.Rec.Case(desc, boundary && withValidate, lab...)
 	})
 }
 
@@ -521,8 +535,11 @@ func TestValidateMulti(t *testing.T) {
 			switch rapid.IntRange(0, 2).Draw(t, "fkind") {
 			case 0: // struct by prefix
 				v := VS{A: rapid.SampledFrom([]int{0, 1, 5, 9, 10}).Draw(t, "a"), B: rapid.SampledFrom([]string{"x", "xy", "hello"}).Draw(t, "b")}
+				if rapid.IntRange(0, 4).Draw(t, "nested") != 0 {
+					v.N = VN{X: 1}
+				}
 				cfg[fmt.Sprintf("vs%d", i)] = v
-				ok := v.A >= 1 && v.A <= 9 && len(v.B) >= 2
+				ok := v.A >= 1 && v.A <= 9 && len(v.B) >= 2 && v.N != (VN{})
 				if libErr := vld.Struct(v); (libErr == nil) != ok {
 					t.Fatalf("HARNESS: struct verdict mismatch for %+v: %v", v, libErr)
 				}
